@@ -109,8 +109,71 @@ Proof.
 Qed.
 
 Lemma adjacent_gates_unhandled_rejected : forall c gs g,
-  In g gs -> handledb g = false -> adjacent_gates c gs = None.
+  fix_adjpass c = false -> In g gs -> handledb g = false -> adjacent_gates c gs = None.
 Proof. intros c gs g. apply adjacent_gates_rejects. Qed.
+
+(* adjacent_gates with C07-adjacent-gates-passthrough: unhandled gates are kept, in order *)
+Lemma adjacent_gates_passthrough : forall c g r,
+  fix_adjpass c = true -> handledb g = false ->
+  adjacent_gates c (g :: r) = option_map (cons g) (adjacent_gates c r).
+Proof.
+  intros c g r Hc H. cbn [adjacent_gates].
+  rewrite adj1_passthrough by auto. cbn [obind].
+  destruct (adjacent_gates c r); reflexivity.
+Qed.
+
+Lemma adjacent_gates_passthrough_all : forall c gs,
+  fix_adjpass c = true ->
+  forallb (fun g => negb (handledb g)) gs = true -> adjacent_gates c gs = Some gs.
+Proof.
+  intros c gs Hc. induction gs as [|g gs IH]; intros H; [reflexivity|].
+  cbn [forallb] in H. apply andb_true_iff in H. destruct H as [Hg H].
+  apply negb_true_iff in Hg. rewrite adjacent_gates_passthrough by auto. rewrite IH by exact H. reflexivity.
+Qed.
+
+(* ---- circuits with measurements (operation level) --------------------------------------- *)
+Lemma route_ops_gates : forall c tp N gs,
+  route_ops c tp N (map OG gs) = option_map (map OG) (route c tp N gs).
+Proof.
+  intros c tp N gs. induction gs as [|g gs IH]; [reflexivity|].
+  cbn [map route_ops route]. rewrite IH.
+  destruct (route1 c tp N g) as [o|]; [|reflexivity]. cbn [obind].
+  destruct (route c tp N gs) as [r|]; [|reflexivity]. cbn [option_map].
+  rewrite map_app. reflexivity.
+Qed.
+
+Definition meas_name_ok (n : string) : bool := negb (is_ctrl n || is_swapk n).
+
+Lemma route_ops_measurement_passthrough : forall c tp N n t s r,
+  fix_meas c = true -> meas_name_ok n = true ->
+  route_ops c tp N (OM n t s :: r) = option_map (cons (OM n t s)) (route_ops c tp N r).
+Proof.
+  intros c tp N n t s r Hc Hn. unfold meas_name_ok in Hn. apply negb_true_iff in Hn.
+  cbn [route_ops]. rewrite Hn, Hc. reflexivity.
+Qed.
+
+Lemma route_ops_measurement_wrapped : forall c tp N n t s r,
+  fix_meas c = false -> meas_name_ok n = true ->
+  route_ops c tp N (OM n t s :: r) = option_map (cons (OG wrapped_measurement)) (route_ops c tp N r).
+Proof.
+  intros c tp N n t s r Hc Hn. unfold meas_name_ok in Hn. apply negb_true_iff in Hn.
+  cbn [route_ops]. rewrite Hn, Hc. reflexivity.
+Qed.
+
+(* every operation is either a measurement or a gate the gate-level theorems speak about *)
+Definition op_ok (N : Z) (o : op) : Prop :=
+  match o with
+  | OG g => gate_ok N g
+  | OM n _ _ => meas_name_ok n = true
+  end.
+
+Lemma adjacent_ops_rejects_measurement : forall c ops n t s,
+  In (OM n t s) ops -> adjacent_ops c ops = None.
+Proof.
+  intros c ops n t s H. unfold adjacent_ops.
+  assert (E : existsb is_meas ops = true) by (apply existsb_exists; exists (OM n t s); split; auto).
+  rewrite E. reflexivity.
+Qed.
 
 (* ------------------------------------------------------------------------------------------ *)
 (* A concrete, non-trivial instance of the laws: two tokens sitting on qubits a and b and a    *)
@@ -252,12 +315,30 @@ Proof.
   split; [reflexivity|]. split; [vm_compute; reflexivity|]. reflexivity.
 Qed.
 
-(* (d) adjacent_gates does not pass an unhandled gate through: it refuses the circuit *)
+(* (d) before C07-adjacent-gates-passthrough, adjacent_gates does not pass an unhandled gate
+   through: it refuses the circuit *)
 Lemma adjacent_gates_passthrough_refuted :
-  exists c gs, Forall (fun g => in_rangeb 2 g = true) gs /\
-               forallb (fun g => negb (handledb g)) gs = true /\ adjacent_gates c gs = None.
+  exists gs, Forall (fun g => in_rangeb 2 g = true) gs /\
+             forallb (fun g => negb (handledb g)) gs = true /\
+             adjacent_gates orig gs = None /\ adjacent_gates stage2 gs = None /\
+             adjacent_gates fixed gs = Some gs.
 Proof.
-  exists fixed, [mkGate "X" [0] [] None]. split; [repeat constructor|]. split; reflexivity.
+  exists [mkGate "X" [0] [] None]. split; [repeat constructor|]. repeat split; reflexivity.
+Qed.
+
+(* (e) before C07-measurement-passthrough, to_chain_structure replaces a measurement by the gate
+   add_gate builds around it *)
+Lemma route_measurement_refuted :
+  exists N ops out,
+    Forall (op_ok N) ops /\
+    route_ops stage2 Linear N ops = Some out /\ route_ops orig Linear N ops = Some out /\
+    existsb is_meas ops = true /\ existsb is_meas out = false /\
+    route_ops fixed Linear N ops =
+      Some [OG (SWAPg 0 1); OG (Cg "CNOT" 1 2); OG (SWAPg 0 1); OM "M0" [0] (Some 0)].
+Proof.
+  exists 3, [OG (Cg "CNOT" 0 2); OM "M0" [0] (Some 0)]. eexists.
+  split; [repeat constructor; right; split; reflexivity|].
+  split; [vm_compute; reflexivity|]. repeat split; vm_compute; reflexivity.
 Qed.
 
 (* the fixed model on the same witnesses *)
@@ -270,3 +351,50 @@ Lemma fixed_on_witnesses :
 Proof.
   split; [|split]; eexists; repeat split; vm_compute; reflexivity.
 Qed.
+
+(* ------------------------------------------------------------------------------------------ *)
+(* many operations: gates and measurements (fixed code)                                        *)
+(* ------------------------------------------------------------------------------------------ *)
+Section MainOps.
+  Variable S : Type.
+  Variable act : gate -> S -> S.
+  Hypothesis laws : sem_laws S act.
+
+  (* adjacent_gates on a circuit that mixes routed and other gates *)
+  Lemma adjacent_gates_mixed : forall N gs,
+    Forall (gate_ok N) gs ->
+    exists outs, adjacent_gates fixed gs = Some (List.concat outs) /\
+                 Forall2 (piece_ok S act Linear N) gs outs /\
+                 forall st, run S act (List.concat outs) st = run S act gs st.
+  Proof.
+    intros. apply adjacent_gates_mixed_ok; auto; apply laws.
+  Qed.
+
+  (* the piece of the output that belongs to one input operation *)
+  Definition op_piece_ok (tp : topo) (N : Z) (o : op) (out : list op) : Prop :=
+    match o with
+    | OM n t s => out = [OM n t s]
+    | OG g => exists og, out = map OG og /\ piece_ok S act tp N g og
+    end.
+
+  Lemma route_ops_many : forall tp N ops,
+    Forall (op_ok N) ops ->
+    exists outs, route_ops fixed tp N ops = Some (List.concat outs) /\
+                 Forall2 (op_piece_ok tp N) ops outs.
+  Proof.
+    intros tp N ops H. induction H as [|o ops Ho HF IH].
+    - exists []. split; [reflexivity | constructor].
+    - destruct IH as [outs [IH1 IH2]]. destruct o as [g|n t s].
+      + cbn [op_ok] in Ho.
+        destruct (route_many S act laws tp N [g]) as [og [E [P _]]]; [constructor; [exact Ho|constructor]|].
+        inversion P as [|g' o1 gs' os' P1 P2]; subst. inversion P2; subst.
+        cbn [route] in E. destruct (route1 fixed tp N g) as [o'|] eqn:R1; [|discriminate].
+        cbn [obind option_map List.concat] in E. rewrite !app_nil_r in E. inversion E; subst o'.
+        exists (map OG o1 :: outs). split.
+        * cbn [route_ops]. rewrite R1. cbn [obind]. rewrite IH1. reflexivity.
+        * constructor; [exists o1; split; [reflexivity | exact P1] | exact IH2].
+      + cbn [op_ok] in Ho. exists ([OM n t s] :: outs). split.
+        * rewrite route_ops_measurement_passthrough by (auto; reflexivity). rewrite IH1. reflexivity.
+        * constructor; [reflexivity | exact IH2].
+  Qed.
+End MainOps.
